@@ -1258,6 +1258,18 @@ class Mailbox:
             new_msg_keys,
         )
 
+        # Read everything that can fail before our own lists change: the
+        # agent that delivered the new messages may be half way through
+        # rewriting `.mh_sequences`. A resync that dies on that must leave
+        # the new messages to be found, with their sequences, by the next
+        # one. (They would not count as new a second time and their
+        # `unseen` entries would be overwritten with what we have in memory.)
+        #
+        async with self.mh_sequences_lock:
+            msg_seqs = self.get_sequences_from_folder()
+        for key in new_msg_keys:
+            new_msgs[key] = self.get_msg(key)
+
         self.msg_keys.extend(new_msg_keys)
         new_uids = list(range(self.next_uid, self.next_uid + num_new_msgs))
         logger.debug(
@@ -1286,11 +1298,7 @@ class Mailbox:
         #
         self.marked(True)
         async with self.mh_sequences_lock:
-            msg_seqs = self.get_sequences_from_folder()
             for key in new_msg_keys:
-                msg = self.get_msg(key)
-                new_msgs[key] = msg
-
                 msg_sequences = {"Recent"}
                 for seq in msg_seqs.keys():
                     if key in msg_seqs[seq]:
